@@ -167,7 +167,21 @@ static void dump_prog (const program_t * prog, int force)
       int total = fi[0];
       unsigned char *li = (unsigned char *) (fi + lnoff);
       unsigned char *li_end = ((unsigned char *) fi) + total;
-      int seen[64], nseen = 0;
+      {
+        /* fi[0] is the size of both tables in bytes stored in an unsigned short: with more than 64 KB of tables it
+         * has wrapped.  The runs cover the whole program (switch_to_line (-1) flushes the last bytes), so their
+         * real end is where the run lengths add up to program_size */
+        long acc = 0;
+        unsigned char *q = li;
+        while (acc < (long) prog->program_size && q < li + 3L * 70000)
+          {
+            acc += q[0];
+            q += 3;
+          }
+        if (q > li_end)
+          li_end = q;
+      }
+      int seen[512], nseen = 0;
       tb_add (&t, "tab %s psize=%d fi=", prog->name, (int) prog->program_size);
       for (int i = 2; i + 1 < lnoff; i += 2)
         tb_add (&t, "%s%d:%d", i > 2 ? "," : "", (int) fi[i], (int) fi[i + 1]);
@@ -189,7 +203,7 @@ static void dump_prog (const program_t * prog, int force)
           for (int k = 0; k < nseen; k++)
             if (seen[k] == id)
               dup = 1;
-          if (dup || nseen >= 64)
+          if (dup || nseen >= 512)
             continue;
           seen[nseen++] = id;
           tb_add (&t, "%s%d:%s", nseen > 1 ? "," : "", id,
